@@ -1,10 +1,12 @@
 #!/bin/bash
 # developer tool: run every registered check of a tier sequentially, print timing and exit codes
 T=${1:-quick}
-cd /verif
+HERE="$(cd "$(dirname "${BASH_SOURCE[0]}")" && pwd)"
+cd "$HERE"
 for i in $(seq -w 1 20); do
   s=$(date +%s)
   ./check C$i --tier $T > /tmp/runall.C$i.$T.log 2>&1; rc=$?
   e=$(date +%s)
   echo "C$i rc=$rc $((e-s))s $(grep -E "^\[C$i\] tier=" /tmp/runall.C$i.$T.log | tail -1)"
+  grep -E "inconclusive  |VIOLATION|HARNESS-ERROR|KNOWN" /tmp/runall.C$i.$T.log | cut -c1-220 | head -12
 done
